@@ -20,6 +20,12 @@ def all_harnesses():
     for nd in (0, 2, 4):
         hs.append(Harness(f"c14_audecode_stream_{nd}", f"crate::c14::au_decode_stream({nd})", unwind=44, unit="AuDecode::work (whole stream)",
                           shape={"header": 28, "data_bytes": nd}, core=(nd == 2), timeout=1500))
+    # AuDecode PCM data delivered in pieces (odd and even sizes): same samples as in one piece and as the PCM16 definition
+    for nd in (4, 5):
+        for si, sch in enumerate(([(3, 0), (2, 1), (3, 1)], [(1, 0), (1, 0), (3, 2)])):
+            hs.append(Harness(f"c14_audata_n{nd}_s{si}", f"crate::c08::au_decode_data({nd}, 3, 2, &[{', '.join(f'({a}, {b})' for a, b in sch)}], {nd + 4})", unwind=14,
+                              unit="AuDecode::work (data state, segmented)", shape={"data_bytes": nd, "cap_in": 3, "cap_out": 2, "schedule": sch},
+                              core=(nd == 5 and si == 0), timeout=1200))
     import itertools
     TSTUB = [("<std::net::TcpStream as std::io::Read>::read", "crate::c14::tcp_read_stub")]
     for cap in (1, 2):
@@ -39,4 +45,4 @@ def all_harnesses():
 
 
 def harnesses(tier, seed):
-    return select(all_harnesses(), tier, seed, 0)
+    return select(all_harnesses(), tier, seed, 0, max_one=260)
